@@ -667,7 +667,6 @@ theorem fromField_reads2 (ov : List (String × String)) : ∀ (f : Field) (obj :
         obtain ⟨hvt, _, hnn, hev, hnd, k, hrt, hT⟩ := hok
         have hb := elemReads_prim (fun as s => copyFromFields ov sub as { s with obj := resetOneOfs ((msg.map (·.oneOfNames)).getD []) s.obj })
           ov info (mv.getD info) k hrt (by rw [hev]; exact hrt.ek) (Or.inr hk)
-        rw [hnn] at hb
         exact fieldWith_map _ ov info mv msg attrs st a _ _ _ _ hb (Or.inl hk) ho he hvt hnd hT hl hr
       | objectMap =>
         simp only [hk] at hok hr ⊢
